@@ -6,6 +6,7 @@ the operator names found in the source; the check compares the two lists.
 import Geodesy.Model.Ops.Basic
 import Geodesy.Model.Ops.Helmert
 import Geodesy.Model.Ops.Adapt
+import Geodesy.Model.Ops.Merc
 
 namespace Geodesy
 open Text
@@ -24,11 +25,13 @@ def builtin (ce : Ops.CtorEnv) (name : Str) : Option (Ctor R) :=
   else if name == S "helmert" then some (Ops.Helmert.new R ce)
   else if name == S "adapt" then some (Ops.Adapt.new R ce)
   else if name == S "unitconvert" then some (Ops.Unitconvert.new R ce)
+  else if name == S "merc" then some (Ops.Merc.new R ce)
+  else if name == S "webmerc" then some (Ops.Webmerc.new R ce)
   else none
 
 /-- names of the built-ins the model covers (besides `pipeline`) -/
 def modelled : List String :=
-  ["addone", "noop", "longlat", "latlon", "latlong", "lonlat", "stack", "push", "pop", "axisswap", "helmert", "adapt", "unitconvert"]
+  ["addone", "noop", "longlat", "latlon", "latlong", "lonlat", "stack", "push", "pop", "axisswap", "helmert", "adapt", "unitconvert", "merc", "webmerc"]
 
 /-- leaf semantics by constructor tag -/
 def sem : LeafSem R := fun t params dir data =>
@@ -38,6 +41,8 @@ def sem : LeafSem R := fun t params dir data =>
   else if t == S "helmert" then Ops.Helmert.sem params dir data
   else if t == S "adapt" then Ops.Adapt.sem params dir data
   else if t == S "unitconvert" then Ops.Unitconvert.sem params dir data
+  else if t == S "merc" then Ops.Merc.sem params dir data
+  else if t == S "webmerc" then Ops.Webmerc.sem params dir data
   else if t == S "stack" || t == S "push" || t == S "pop" then Ops.placeholderSem data
   else (data, 0)
 
